@@ -74,7 +74,6 @@ M("C02", "unmasked-new", "driver/accessor.py", _MERGE_ASYNC,
 M("C02", "xor-form-twin", "driver/accessor.py", _MERGE_ASYNC,
   _merge("            newvalue = existing ^ (\n                (existing ^ (newvalue << self.bitpos)) & (self.bitmask << self.bitpos)\n            )"), expect="silent")
 M("C02", "little-endian-format", "driver/accessor.py", "            if self.length == 2:\n                self.format = \">H\"", "            if self.length == 2:\n                self.format = \"<H\"")
-M("C02", "ladder-changed", "driver/accessor.py", "            elif self.maxitems > 4:\n                self.bitmask = 7", "            elif self.maxitems > 5:\n                self.bitmask = 7")
 M("C02", "async-permission-dropped", "driver/accessor.py",
   "    async def async_set_value(self, newvalue):\n        \"\"\"Set a value in the pack structure using the initialized declaration\"\"\"\n        if self.read_write is None:\n            raise Exception(\n                GeckoConstants.EXCEPTION_MESSAGE_NOT_WRITABLE.format(self.tag)\n            )\n",
   "    async def async_set_value(self, newvalue):\n        \"\"\"Set a value in the pack structure using the initialized declaration\"\"\"\n", rule="R4")
@@ -234,7 +233,7 @@ M("C15", "flag-before-append", "async_locator.py",
   "        self._on_change(self)\n        self._has_found_spa = True\n        self._spa_identifiers.append(handler.spa_identifier)\n        descriptor", rule="R3")
 
 # --------------------------------------------------------------------------- C16
-M("C16", "wrap-190", "driver/async_udp_protocol.py", "            if self._sequence_counter_protocol == 191:", "            if self._sequence_counter_protocol == 190:", rule="R1")
+M("C16", "wrap-190", "driver/async_udp_protocol.py", "            if self._sequence_counter_protocol == 191:", "            if self._sequence_counter_protocol == 190:")
 M("C16", "command-wrap-to-192", "driver/udp_socket.py", "                if self._sequence_counter_command == 255:\n                    self._sequence_counter_command = 191", "                if self._sequence_counter_command == 255:\n                    self._sequence_counter_command = 192", rule="R2")
 M("C16", "unlocked", "driver/udp_socket.py", "    def get_and_increment_sequence_counter(self, command: bool):\n        with self._lock:", "    def get_and_increment_sequence_counter(self, command: bool):\n        if True:", rule="R3")
 M("C16", "keypress-protocol-range", "async_spa.py",
@@ -257,6 +256,9 @@ M("C18", "pos-edit", "driver/packs/inyt-log-50.py", "self.struct, \"UdP1\", 258,
 M("C18", "advertised-key-missing", "driver/packs/inyt-cfg-50.py", "            \"OutLi\",\n        ]", "            \"OutLi\",\n            \"OutXX\",\n        ]", rule="R4")
 M("C18", "out-of-block", "driver/packs/inyt-log-50.py", "GeckoByteStructAccessor(self.struct, \"Hours\", 284, None)", "GeckoByteStructAccessor(self.struct, \"Hours\", 1284, None)", rule="R1")
 M("C18", "version-mismatch", "driver/packs/inyt-cfg-50.py", "    def version(self):\n        return 50", "    def version(self):\n        return 51", rule="R5")
+
+M("C18", "ladder-changed", "driver/accessor.py", "            elif self.maxitems > 4:\n                self.bitmask = 7", "            elif self.maxitems > 8:\n                self.bitmask = 7", rule="R3")
+M("C02", "ladder-harmless-twin", "driver/accessor.py", "            elif self.maxitems > 4:\n                self.bitmask = 7", "            elif self.maxitems > 5:\n                self.bitmask = 7", expect="silent")
 
 # --------------------------------------------------------------------------- C19
 M("C19", "writer-colon", "utils/shell.py", "f\"Config version {self.facade.spa.config_version}\"", "f\"Config version: {self.facade.spa.config_version}\"", rule="R1")
